@@ -6,6 +6,8 @@
 //   bil  vt F w h D ny nx0 n step   bilinear_sampler at the points ((nx0+i*step)/D, ny/D), i<n: one token per point:
 //   near vt F w h D ny nx0 n step   nearest_neighbor_sampler      `o` = reported outside, result untouched; `X` = outside but result modified;
 //                                                                  else the channel values c0,c1,.. of the result (g32f: value*256)
+//   bilc vt F w h k v b..           bilinear_sampler on a CONSTANT (k=c: every channel = v) or two-level (k=t: v where x+y is even, else v-1) source at
+//                                   arbitrary points given as bit patterns x y x y .. (F=d: binary64, F=f: binary32); tokens as for `bil`  (vt: g8 rgb8 rgb8p g16 g8s)
 //   tap  k F w h D ny nx0 n step    k = b|n: the sampler on a VIRTUAL view whose dereference function records the coordinates it is asked for:
 //                                   per point `o` or the dereferenced coordinates x:y,x:y,.. in order (what the sampler reads)
 //   res  vt s w h dw dh a b c d e f resample_pixels(src w*h, dst dw*dh, matrix3x2<double>(a/8,..,f/8), s = b|n): all dst channel values row-major
@@ -68,6 +70,29 @@ std::string row(ptrdiff_t w, ptrdiff_t h, long D, long ny, long nx0, long n, lon
         pixel_t r = sentinel<pixel_t>();
         bool ok = gil::sample(Sampler{}, s.v, p, r);
         if (i) out += ' ';
+        if (!ok) out += (r == sentinel<pixel_t>()) ? "o" : "X";
+        else out += show_px(r);
+    }
+    return out;
+}
+
+// ---- constant / two-level sources, arbitrary (off-grid) points
+struct lvl_fn { long v; template <typename C> void operator()(C& ch) { ch = C(v); } };
+template <typename Img, typename F>
+std::string bilc(ptrdiff_t w, ptrdiff_t h, bool two, long v, std::vector<std::string> const& ws, size_t first) {
+    using pixel_t = typename Img::value_type;
+    Img img(w, h);
+    auto vw = gil::view(img);
+    for (ptrdiff_t y = 0; y < h; ++y) for (ptrdiff_t x = 0; x < w; ++x) {
+        pixel_t p; lvl_fn f{(two && ((x + y) % 2 != 0)) ? v - 1 : v}; gil::static_for_each(p, f); vw(x, y) = p; }
+    std::string out;
+    for (size_t i = first; i + 1 < ws.size(); i += 2) {
+        F px, py;
+        if (sizeof(F) == 8) { uint64_t a = hv::to_ull(ws[i]), b = hv::to_ull(ws[i + 1]); std::memcpy(&px, &a, 8); std::memcpy(&py, &b, 8); }
+        else { uint32_t a = (uint32_t)hv::to_ull(ws[i]), b = (uint32_t)hv::to_ull(ws[i + 1]); std::memcpy(&px, &a, 4); std::memcpy(&py, &b, 4); }
+        pixel_t r = sentinel<pixel_t>();
+        bool ok = gil::sample(gil::bilinear_sampler{}, gil::const_view(img), gil::point<F>(px, py), r);
+        if (i > first) out += ' ';
         if (!ok) out += (r == sentinel<pixel_t>()) ? "o" : "X";
         else out += show_px(r);
     }
@@ -152,6 +177,12 @@ int main() {
             if (f) return row<S, gil::nearest_neighbor_sampler, float>(I(3), I(4), I(5), I(6), I(7), I(8), I(9)); \
             return row<S, gil::nearest_neighbor_sampler, double>(I(3), I(4), I(5), I(6), I(7), I(8), I(9)); }
             SRCS(X)
+#undef X
+        }
+        if (w.size() >= 9 && w[0] == "bilc") {
+            bool f = w[2] == "f", two = w[5] == "t";
+#define X(name, T) if (w[1] == name) { if (f) return bilc<T, float>(I(3), I(4), two, I(6), w, 7); return bilc<T, double>(I(3), I(4), two, I(6), w, 7); }
+            X("g8", gil::gray8_image_t) X("rgb8", gil::rgb8_image_t) X("rgb8p", gil::rgb8_planar_image_t) X("g16", gil::gray16_image_t) X("g8s", gil::gray8s_image_t)
 #undef X
         }
         if (w.size() == 10 && w[0] == "tap") {
